@@ -7,6 +7,7 @@ import (
 	"errors"
 	"fmt"
 	"math"
+	"reflect"
 	"sort"
 	"strconv"
 	"strings"
@@ -408,6 +409,50 @@ func init() {
 			q := strconv.Quote(s)
 			u, err := strconv.Unquote(q)
 			out += fmt.Sprint(q, u == s, err, ";")
+		}
+		return out
+	})
+	reg("reflectmini", func() string {
+		type inner struct{ N int }
+		type host struct {
+			Name string
+			Age  int8
+			W    float32
+			In   inner
+			P    *inner
+			u    int
+		}
+		type mystr string
+		out := ""
+		h := host{"bob", 7, 1.5, inner{3}, &inner{4}, 9}
+		for _, x := range []interface{}{"s", mystr("ms"), 5, int8(-3), uint16(9), 2.5, float32(0.5), true, h, &h, (*host)(nil), nil, []int{1}, map[string]int{}, errors.New("e")} {
+			v := reflect.ValueOf(x)
+			out += fmt.Sprint(v.Kind(), v.IsValid(), ";")
+			switch v.Kind() {
+			case reflect.String:
+				out += v.String()
+			case reflect.Int, reflect.Int8:
+				out += fmt.Sprint(v.Int())
+			case reflect.Uint16:
+				out += fmt.Sprint(v.Uint())
+			case reflect.Float32, reflect.Float64:
+				out += fmt.Sprint(v.Float())
+			case reflect.Bool:
+				out += fmt.Sprint(v.Bool())
+			case reflect.Ptr:
+				out += fmt.Sprint(v.IsNil())
+				e := reflect.Indirect(v)
+				out += fmt.Sprint(e.IsValid())
+				if e.IsValid() {
+					out += fmt.Sprint(e.Kind(), e.FieldByName("Name").String(), e.FieldByName("Nope").IsValid())
+				}
+			case reflect.Struct:
+				f := v.FieldByName("Age")
+				out += fmt.Sprint(f.IsValid(), f.CanInterface(), f.Interface(), v.FieldByName("In").Kind(), v.FieldByName("P").IsNil(), v.FieldByName("In").FieldByName("N").Int(), v.FieldByName("zz").IsValid())
+			default:
+				out += v.String()
+			}
+			out += "|"
 		}
 		return out
 	})
